@@ -254,6 +254,10 @@ def static_classes(case):
     for i, c in enumerate(cls):
         if clause_interval(c):
             out.add("C03-interval")
+        if clause_interval(c) and (c["PLowerBoundAlias"] != "" or c["PUpperBoundAlias"] != ""):
+            out.add("C03-interval-alias")
+        if c["Optional"] and not bound and not clause_spec3(c):
+            out.add("C10-optional-unbound")
         if clause_spec3(c):
             if c["Optional"] and clause_has_alias(c):
                 out.add("C10-spec3-alias")
@@ -278,7 +282,9 @@ def classify(case, verdict):
         return "C03-spec3-after-bound", "fully specified clause after bound ones: AppendTable error"
     if "C10-spec3-alias" in st and (res == "err" or (res == "ok" and len(case["result"]["rows"]) < n)):
         return "C10-spec3-alias", "fully specified OPTIONAL clause with alias: error or rows dropped"
-    if "C03-interval" in st and res in ("ok", "panic", "crash"):
+    if "C10-optional-unbound" in st and res == "ok" and len(case["result"]["rows"]) < n:
+        return "C10-optional-unbound", "OPTIONAL clause processed while the table has no bindings: appended, not left-joined"
+    if "C03-interval" in st and (res in ("ok", "panic", "crash") or "C03-interval-alias" in st):
         if b == 1:
             return "C03-interval-dup", "interval clause without anchor binding: one row per triple (same set of rows)"
         return "C03-interval", "interval clause `\"id\"@[lb,ub]` without anchor binding"
